@@ -89,9 +89,12 @@ def run(case: dict, ctx) -> dict:
     kinds_used = set()
     budget = 40 << 20
     hot = [rng.randrange(0, size + 1) for _ in range(6)]  # revisited positions (cache thrash + revisit)
+    ends: list[int] = []  # positions where earlier reads ended: later reads resume exactly there
 
     def some_offset():
         r = rng.random()
+        if ends and r < 0.15:
+            return rng.choice(ends)
         if r < 0.35:
             return rng.choice(hot) + rng.randrange(-buf, buf + 1) if rng.random() < 0.5 else rng.choice(hot)
         if r < 0.5:
@@ -180,6 +183,8 @@ def run(case: dict, ctx) -> dict:
                 continue
             if variant != "peek":
                 pos += len(exp)
+                if len(ends) < 12 and pos < size:
+                    ends.append(pos)
             if s.tell() != pos:
                 fail(f"position after {variant}", {"tell": s.tell(), "expected": pos})
         elif r < 0.74:
